@@ -1,7 +1,7 @@
 #!/bin/bash
 # usage: seed_test.sh [dir ...] — every kept seeded change (and fire mutant) must make the check of its property fail.
 REPO=${REPO:-/repo}; export VERIF_REPO=$REPO
-cd /verif
+cd ${VDIR:-/verif}
 DIRS=("$@"); [ ${#DIRS[@]} -eq 0 ] && DIRS=(seeded/*/ mutants/fire/*.diff)
 bad=0
 for d in "${DIRS[@]}"; do
